@@ -345,8 +345,9 @@ class BundleFlattener(ElabPass):
         scope = BundleScope(src=bundle_inst)
 
         # Copy each scalar signal, retaining its original name as the key in `scope.signals`
-        for sig in bundle_def.signals.values():
-            signal_path = Path([sig.name])
+        # Members go by the names the Bundle holds them under. (An object shared with another Bundle carries that one's.)
+        for signame, sig in bundle_def.signals.items():
+            signal_path = Path([signame])
             if signal_path in scope.signals:
                 self.fail(f"Doubly defined Signal {sig} in {bundle_inst}")
             newsig = copy.deepcopy(sig)
@@ -382,8 +383,8 @@ class BundleFlattener(ElabPass):
             scope.signals[signal_path] = newsig
 
         # And recursively do this to all sub-bundle instances, adding them to `scopes` along the way.
-        for sub_bundle_inst in bundle_def.bundles.values():
-            subpath = path.append(Path([sub_bundle_inst.name]))
+        for subname, sub_bundle_inst in bundle_def.bundles.items():
+            subpath = path.append(Path([subname]))
             sub_flip_state = (
                 flip_state if not sub_bundle_inst.flipped else not flip_state
             )
@@ -394,7 +395,7 @@ class BundleFlattener(ElabPass):
                 is_port=is_port,  # Port-ness is defined from the top-level BundleInstance
                 flip_state=sub_flip_state,  # Flip-state can be inverted at each level
             )
-            scope.add_subscope(name=sub_bundle_inst.name, scope=subscope)
+            scope.add_subscope(name=subname, scope=subscope)
 
         return scope
 
